@@ -958,7 +958,7 @@ func TestVerifC20(t *testing.T) {
 	sort.Strings(paths)
 	n := vu.EnvInt("VERIF_C20_RANDOM", 600)
 	if vu.Thorough() {
-		n = vu.EnvInt("VERIF_C20_RANDOM", 6000)
+		n = vu.EnvInt("VERIF_C20_RANDOM", 4000)
 	}
 	rng := vu.Rand(20)
 	off := int(vu.Seed()) * 37
